@@ -161,3 +161,28 @@ pub proof fn lemma_rust_div(a: int, b: int) requires b != 0
     if a < 0 { vstd::arithmetic::div_mod::lemma_fundamental_div_mod(-a, b);
                assert(b * (-((-a) / b)) == -(b * ((-a) / b))) by(nonlinear_arith); }
 }
+
+// ---- State reads (C11): memory layout of the returned values
+pub open spec fn mem_write(m: Seq<i64>, a: int, vs: Seq<i64>) -> Seq<i64> { m.take(a) + vs + m.skip(a + vs.len()) }
+pub open spec fn sum_lens(vals: Seq<Seq<i64>>, k: int) -> int decreases k { if k <= 0 { 0 } else { sum_lens(vals, k - 1) + vals[k - 1].len() } }
+// address of value i: right after the n [address, length] pairs and the values before it
+pub open spec fn val_addr(addr: int, vals: Seq<Seq<i64>>, i: int) -> int { addr + 2 * vals.len() + sum_lens(vals, i) }
+// memory after the first k values have been laid out: pair k at addr+2k = [val_addr(k), len_k], value k at val_addr(k)
+pub open spec fn layout_k(m: Seq<i64>, addr: int, vals: Seq<Seq<i64>>, k: int) -> Seq<i64> decreases k {
+    if k <= 0 { m } else {
+        mem_write(mem_write(layout_k(m, addr, vals, k - 1), addr + 2 * (k - 1), seq![val_addr(addr, vals, k - 1) as i64, vals[k - 1].len() as i64]),
+                  val_addr(addr, vals, k - 1), vals[k - 1]) } }
+pub open spec fn layout_fits(m: Seq<i64>, addr: int, vals: Seq<Seq<i64>>) -> bool {
+    (vals.len() == 0 && addr <= i64::MAX) || (vals.len() > 0 && val_addr(addr, vals, vals.len() as int) <= m.len()) }
+pub proof fn lemma_sum_lens_mono(vals: Seq<Seq<i64>>, i: int, j: int) requires 0 <= i <= j <= vals.len() ensures 0 <= sum_lens(vals, i) <= sum_lens(vals, j) decreases j {
+    if j > 0 { if i < j { lemma_sum_lens_mono(vals, i, j - 1); } else { lemma_sum_lens_mono(vals, i - 1, j - 1); } } }
+pub proof fn lemma_fits(vals: Seq<Seq<i64>>)
+    ensures forall|i: int| 0 <= i <= vals.len() ==> 0 <= #[trigger] sum_lens(vals, i) <= sum_lens(vals, vals.len() as int),
+{ assert forall|i: int| 0 <= i <= vals.len() implies 0 <= #[trigger] sum_lens(vals, i) <= sum_lens(vals, vals.len() as int) by { lemma_sum_lens_mono(vals, i, vals.len() as int); } }
+pub proof fn lemma_layout_len(m: Seq<i64>, addr: int, vals: Seq<Seq<i64>>, k: int)
+    requires 0 <= k <= vals.len(), 0 <= addr, val_addr(addr, vals, k) <= m.len() ensures layout_k(m, addr, vals, k).len() == m.len() decreases k {
+    if k > 0 { lemma_sum_lens_mono(vals, k - 1, k); lemma_sum_lens_mono(vals, 0, k - 1); lemma_layout_len(m, addr, vals, k - 1); } }
+// operands of a key-range read: [.., key_0 .. key_{L-1}, L, num_keys]  ->  (key, num_keys, rest of stack)
+pub open spec fn sp_key_args(s: Seq<i64>) -> Option<(Seq<i64>, int, Seq<i64>)> {
+    if s.len() < 1 { None } else { let n = s.last() as int; let t = s.drop_last();
+        if n < 0 || !lw_ok(t) { None } else { Some((lw_words(t), n, lw_rest(t))) } } }
